@@ -125,13 +125,16 @@ func (c *Cache) Copy(src, dest string) error {
 	var srcFS filesystem.Filespace
 	srcFS, src = c.srcFS(src)
 	dest = varutil.CleanPath(dest)
-	c.changeWrite(dest, true)
-	return (fshelper.Copier{
+	if err := (fshelper.Copier{
 		SrcFS:    srcFS,
 		SrcPath:  src,
 		DestFS:   c.bufferFS,
 		DestPath: dest,
-	}).Do()
+	}).Do(); err != nil {
+		return err
+	}
+	c.changeWrite(dest, true)
+	return nil
 }
 
 // CopyDirectory duplicate a directory
@@ -142,7 +145,6 @@ func (c *Cache) CopyDirectory(src, dest string) error {
 	if !srcFS.IsDir(src) {
 		return goaterr.Errorf("Source node must be a directory")
 	}
-	c.changeWrite(dest, true)
 	return c.Copy(src, dest)
 }
 
@@ -154,7 +156,6 @@ func (c *Cache) CopyFile(src, dest string) error {
 	if !srcFS.IsFile(src) {
 		return goaterr.Errorf("Source node must be a file")
 	}
-	c.changeWrite(dest, true)
 	return c.Copy(src, dest)
 }
 
